@@ -2,8 +2,12 @@
    moment under a chosen configuration: the driver abstracts the state the pipeline was in when
    controler.Stop() was called (how many workers of each stage held a seed, whether the pipeline
    was paused), the model is driven from that state to a state without enabled progress labels,
-   and the observed outcome is compared with the model's. *)
-From ZenoV Require Import Lib.Harness Pipe.StopLts.
+   and the observed outcome is compared with the model's.
+   The WARC side (Pipe/WarcStopLts.v) is run on the same case: from the archiver/WARC state abstracted at the stop
+   moment (busy archiver workers, fetches in progress, fetches started afterwards, pool, sync/async) the sub-model
+   is driven to a state without enabled labels; its outcome (final, every file renamed and whole, one file per
+   writer, records conserved) is compared with what the independent reader found in the job's WARC files. *)
+From ZenoV Require Import Lib.Harness Pipe.StopLts Pipe.WarcStopLts.
 Open Scope N_scope.
 
 Record scase := SC {
@@ -16,7 +20,17 @@ Record scase := SC {
   c_returned : bool;          (* controler.Stop() returned before the watchdog *)
   c_workers_after : N;        (* live stage workers after Stop() returned (stats gauges) *)
   c_open : N;                 (* *.open files left *)
-  c_bad : N                   (* WARC files that do not consist of complete records only *)
+  c_bad : N;                  (* WARC files that do not consist of complete records only *)
+  (* the WARC side *)
+  c_async : bool;             (* WARCWriteAsync *)
+  c_inflight : N;             (* fetches in progress when Stop() was called *)
+  c_after : N;                (* fetches started after Stop() was called *)
+  c_ack_after : N;            (* exchanges the archiver saw completed after Stop() was called *)
+  c_files : N;                (* final (renamed) WARC files *)
+  c_req : N;                  (* request records in them *)
+  c_resp : N;                 (* response / revisit records in them *)
+  c_acked : N;                (* exchanges the archiver saw completed (in sync mode: after the writer's feedback) *)
+  c_lost : N                  (* ... of which without a response record of their own in the final files *)
 }.
 
 Definition mk_workers (stage : nat) (busy idle : nat) (paused : bool) : list worker :=
@@ -60,14 +74,80 @@ Definition model_stops (c : scase) : bool :=
   let '(s, n) := drive (S (measure st)) st in
   finalb s && Nat.leb n (measure st).
 
+(* ---- the WARC side: Pipe/WarcStopLts.v driven from the observed state ---- *)
+Definition wpool (c : scase) : nat := Nat.max 1 (N.to_nat (c_pool c)).     (* checkRotatorSettings: 0 means 1 *)
+
+Definition wstate_of (c : scase) : wst :=
+  let w := N.to_nat (c_w c) in
+  let b := Nat.min w (N.to_nat (nth 1%nat (c_busy c) 0)) in
+  let infl := N.to_nat (c_inflight c) in
+  let aft := N.to_nat (c_after c) in
+  (* the fetches in progress belong to the busy workers (the first one stands for all of them); the fetches that
+     start afterwards come from the seed that is still queued before the archiver *)
+  let busy := match b with O => [] | S b' => AwArch 0 infl 0 :: repeat (AwArch 0 0 0) b' end in
+  WST (WCfg (negb (c_async c)) 1 2 true true)
+      [match b with O => (aft + infl)%nat | _ => aft end]
+      (busy ++ repeat AwIdle (w - b)) 0 0 0 0 0
+      (repeat (WRT PhIdle 0 []) (wpool c)) false false false 0 false.
+
+(* the driven schedule: the stopper moves whenever it can; a worker that finished a seed hands it on and takes the
+   queued one before it observes the cancellation (so that the fetches started after the stop request happen); no
+   failure labels, no rotation *)
+Definition wcands (st : wst) : list wlabel :=
+  XStopper
+  :: flat_map (fun j => [XTake j; XFeedback j; XFetchEnd j true; XFetchEnd j false; XStart j; XDone j; XSendOut j; XAbort j; XExit j])
+              (seq 0 (length (x_aw st)))
+  ++ [XAssemble true; XAssemble false]
+  ++ flat_map (fun i => [XRecv true i; XRecv false i; XBegin i; XWrite i; XFinish i; XClose i]) (seq 0 (length (x_writers st))).
+
+Fixpoint wfirst_enabled (st : wst) (ls : list wlabel) : option (wst * wlabel) :=
+  match ls with
+  | [] => None
+  | l :: r => match wstep st l with Some st' => Some (st', l) | None => wfirst_enabled st r end
+  end.
+
+Fixpoint wdrive (fuel : nat) (st : wst) : wst * list wlabel :=
+  match fuel with
+  | O => (st, [])
+  | S f => match wfirst_enabled st (wcands st) with
+           | Some (st', l) => let '(s, ls) := wdrive f st' in (s, l :: ls)
+           | None => (st, [])
+           end
+  end.
+
+Definition wfinalb (st : wst) : bool :=
+  Nat.eqb (x_pc st) WPC_DONE && negb (x_panicked st) && forallb is_gone (x_aw st)
+  && forallb (fun w => is_done w && Nat.eqb (wr_cur w) 0 && forallb (fun f => negb (f_torn f)) (wr_files w)) (x_writers st)
+  && Nat.eqb (inflight st + queued st)%nat 0.
+
+(* the sub-model's outcome: final within the measure, one renamed file per writer (no rotation: the size limit
+   is far away), every started exchange on disk, and the exchanges acknowledged after the stop request are among
+   those the model carried through *)
+Definition model_warc_ok (c : scase) : bool :=
+  let st := wstate_of c in
+  let '(s, ls) := wdrive (S (wmeasure st)) st in
+  wfinalb s && Nat.leb (length ls) (wmeasure st)
+  && Nat.eqb (wdisk s + 2 * drops ls)%nat (wdisk st + wowed st + 2 * starts ls)%nat
+  && Nat.eqb (length (flat_map wr_files (x_writers s))) (wpool c)
+  && (2 * c_ack_after c <=? N.of_nat (wdisk s)).
+
+Definition observed_warc_ok (c : scase) : bool :=
+  (c_files c =? N.of_nat (wpool c)) && (c_req c =? c_resp c) && (c_lost c =? 0).
+
 Definition observed_stopped (c : scase) : bool :=
   negb (c_crashed c) && c_returned c && (c_workers_after c =? 0) && (c_open c =? 0) && (c_bad c =? 0).
 
-Definition diff_case (c : scase) : bool := negb (Bool.eqb (model_stops c) (observed_stopped c)).
+Definition diff_case (c : scase) : bool :=
+  negb (Bool.eqb (model_stops c && model_warc_ok c) (observed_stopped c && observed_warc_ok c)).
 Definition diffs (l : list scase) := bad_idx diff_case l.
 
 Definition mon_returns (c : scase) : bool := negb (c_crashed c) && c_returned c.
 Definition mon_no_open (c : scase) : bool := c_crashed c || negb (c_returned c) || (c_open c =? 0).
 Definition mon_complete_records (c : scase) : bool := c_bad c =? 0.
 Definition mon_workers_gone (c : scase) : bool := c_crashed c || negb (c_returned c) || (c_workers_after c =? 0).
-Definition mons (l : list scase) := mon_idx [mon_returns; mon_no_open; mon_complete_records; mon_workers_gone] l.
+(* C03_warc_nothing_lost on the observation: after a Stop() that returned, every exchange the archiver saw completed
+   has its response record in a final file, and batches are on disk whole (as many request as response records) *)
+Definition mon_nothing_lost (c : scase) : bool := c_crashed c || negb (c_returned c) || (c_lost c =? 0).
+Definition mon_whole_batches (c : scase) : bool := c_crashed c || negb (c_returned c) || (c_req c =? c_resp c).
+Definition mons (l : list scase) :=
+  mon_idx [mon_returns; mon_no_open; mon_complete_records; mon_workers_gone; mon_nothing_lost; mon_whole_batches] l.
